@@ -586,6 +586,63 @@ fn c11_files(r: &mut Report, before: &[String], after: &[String], live: Option<&
     }
 }
 
+/// Tie of the model of `import_publisher_versions` (Vet/Model/Publishers.lean): the live publisher
+/// table of the store as acquired unlocked against the model's, from the registry as served, the
+/// lock and the publisher-based entries.
+pub fn corr_publishers(r: &mut Report, d: &mut Driver, p: &Project, w: &CmdWorld, case: &str) {
+    let Ok(store) = p.acquire(false) else { return };
+    let live = store.clone_for_suggest(false);
+    let lock = store.imports.clone();
+    drop(store);
+    let Some(li) = &live.live_imports else { return };
+    let sg = core::SpecGraph::new(&p.md);
+    let mut names: BTreeSet<String> = w.remote.registry.keys().cloned().collect();
+    names.extend(live.audits.wildcard_audits.keys().cloned());
+    names.extend(live.audits.trusted.keys().cloned());
+    names.extend(lock.publisher.keys().cloned());
+    names.extend(li.publisher.keys().cloned());
+    let names: Vec<String> = names.into_iter().collect();
+    let mut t = wire::Toks::new();
+    t.n(names.len());
+    let mut imp = wire::Toks::new();
+    let mut rows = 0usize;
+    let mut imp_rows = wire::Toks::new();
+    for (i, n) in names.iter().enumerate() {
+        // version ranks per crate
+        let mut vs: Vec<semver::Version> = w.remote.registry.get(n).map(|l| l.iter().map(|x| x.version.clone()).collect()).unwrap_or_default();
+        vs.extend(lock.publisher.get(n).into_iter().flatten().map(|q| q.version.semver.clone()));
+        vs.extend(li.publisher.get(n).into_iter().flatten().map(|q| q.version.semver.clone()));
+        vs.sort();
+        vs.dedup();
+        let rank = |v: &semver::Version| vs.iter().position(|x| x == v).unwrap();
+        t.n(i);
+        t.b(live.audits.wildcard_audits.contains_key(n));
+        t.b(li.audits.values().any(|f| f.wildcard_audits.contains_key(n)));
+        t.b(false);
+        t.b(live.audits.trusted.contains_key(n));
+        t.b((0..sg.ids.len()).any(|q| sg.name[q] == *n && sg.third_party(&live.config.policy, q)));
+        t.list(&lock.publisher.get(n).into_iter().flatten().map(|q| rank(&q.version.semver)).collect::<Vec<_>>());
+        let mut reg: Vec<&RegVersion> = w.remote.registry.get(n).map(|l| l.iter().collect()).unwrap_or_default();
+        reg.sort_by(|a, b| a.version.cmp(&b.version));
+        t.n(reg.len());
+        for rv in reg {
+            t.n(rank(&rv.version));
+            match rv.user { Some(u) => { t.n(u as usize + 1); } None => { t.n(0); } }
+            t.n(wire::day(&gen::date(rv.day)));
+        }
+        if let Some(l) = li.publisher.get(n) {
+            rows += 1;
+            imp_rows.n(i).n(l.len());
+            for q in l {
+                imp_rows.n(rank(&q.version.semver)).n(q.user_id as usize).n(wire::day(&q.when)).b(q.is_fresh_import);
+            }
+        }
+    }
+    imp.n(rows).ext(&imp_rows);
+    let ans = d.ask(&format!("publishers {}", t.text()));
+    r.corr("corr.publishers", &format!("ok {}", imp.text()), &ans, case);
+}
+
 /// C06 at the command layer: recompute every required chain from the records, with the publisher
 /// table rebuilt from the registry as served now.
 fn c06_live_publishers(r: &mut Report, p: &Project, w: &CmdWorld, case: &str) {
@@ -897,6 +954,7 @@ pub fn corpus_regen_exemptions() -> (CmdWorld, Project) {
 pub fn exec_history(r: &mut Report, rng: &mut Rng, idx: u64, mut w: CmdWorld, p: Project, fixed: Option<Vec<&'static [&'static str]>>) {
     r.evaluations += 1;
     let prop = r.prop.clone();
+    let mut driver: Option<Driver> = if prop == "C06" { Some(Driver::spawn()) } else { None };
     w.remote.install();
     let steps = fixed.as_ref().map(|f| f.len()).unwrap_or_else(|| rng.range(3, 6));
     let mut trace: Vec<String> = vec![format!("history#{idx}: {} packages, {} peers", w.graph.pkgs.len(), w.remote.peers.len())];
@@ -921,6 +979,11 @@ pub fn exec_history(r: &mut Report, rng: &mut Rng, idx: u64, mut w: CmdWorld, p:
         let before2 = p.files(); // the unlocked probe check may itself update the lock
         // clone without the store lock (a held Store would block the command under test)
         let live = if prop == "C11" { p.acquire(false).ok().map(|s| s.clone_for_suggest(false)) } else { None };
+        if prop == "C06" {
+            if let Some(d) = driver.as_mut() {
+                corr_publishers(r, d, &p, &w, &format!("{}\nbefore step: {cmd_s}", trace.join("\n")));
+            }
+        }
         // C02: the conclusion the resolver reaches on the store as this very command will load it
         let concl_before: Option<bool> = if prop == "C02" && (cmd.is_empty() || cmd == ["--locked"]) {
             let md = p.md.clone();
